@@ -15,7 +15,7 @@ import (
 // it when the transport works, and afterwards no goroutine or timer of either
 // connection is left.
 func VH_C12_Close() {
-	n := uint8(vIntRange("n", 1, 2))
+	n := uint8(vIntRange("n", 1, vParam("maxn", 2)))
 	keepalive := vBool("keepalive")
 	var opts []TimeoutOptions
 	if keepalive {
